@@ -372,6 +372,16 @@ func (e *Engine) global(g *ssa.Global) *Value {
 		return p
 	}
 	cell := zero(deref(g.Type()))
+	if g.Pkg != nil && isError(deref(g.Type())) && e.isOpaque(g.Pkg.Pkg.Path()) {
+		// Exported sentinel errors of opaque (never initialised) packages would otherwise be nil errors, which
+		// makes `return pkg.ErrX` a success and errors.Is(nil, pkg.ErrX) true. Give each a distinct non-nil value.
+		if ep := e.Prog.ImportedPackage("errors"); ep != nil {
+			if t := ep.Type("errorString"); t != nil {
+				var v Value = Struct{g.Pkg.Pkg.Path() + "." + g.Name()}
+				cell = Iface{T: types.NewPointer(t.Object().Type()), V: &v}
+			}
+		}
+	}
 	p := &cell
 	e.globals[g] = p
 	return p
